@@ -161,6 +161,22 @@ func (g *Gen) lineBlock(b *Block, depth int, n int) {
 			body := Blk(Local1(g.fresh("pad"), Num(1)), CallSN("thrower", Num(float64(g.R.Intn(9))), Num(float64(lvl))), Local1(g.fresh("pad"), Num(2)))
 			b.Stmts = append(b.Stmts, CallSN("emit", Str(fmt.Sprintf("lvl%d", lvl)), CallN("pcall", Fn(nil, false, body))))
 		case 6:
+			if g.R.Intn(2) == 0 {
+				// level 2 of a function that was called by a host function which was
+				// called by pcall: two host frames lie between it and the calling
+				// Lua statement
+				thr := Fn(nil, false, Blk(Local1(g.fresh("pad"), Num(1)), CallSN("error", Str("Ego"), Num(2))))
+				switch g.R.Intn(3) {
+				case 0:
+					b.Stmts = append(b.Stmts, CallSN("emit", Str("lvl2-host-frames"), CallN("pcall", N("hostcall"), thr)))
+				case 1:
+					b.Stmts = append(b.Stmts, CallSN("emit", Str("lvl2-host-frames"), CallN("pcall", N("pcall"), thr)))
+				default:
+					b.Stmts = append(b.Stmts, CallSN("emit", Str("lvl2-host-frames"), CallN("pcall", N("hostcall"), N("hostcall"), thr)))
+				}
+				g.cover("lvl2-through-host-frames")
+				break
+			}
 			b.Stmts = append(b.Stmts, CallSN("emit", Str("lvl1"), CallN("pcall", Fn(nil, false, Blk(CallSN("error", Str("Edirect")))))))
 		case 7:
 			// function definition lines
